@@ -14,6 +14,8 @@
 (* url -> "absent" | "fresh" | "stale": a fresh copy is used without a     *)
 (* fetch unless the reload flag is set; everything else fetches, and only  *)
 (* a successful fetch writes the cache (CacheInit: its state at the start).*)
+(* TLoad / TRawLoad / TDeferred model odml/templates.py (TemplateHandler): own *)
+(* tables, failed loads not kept, includes through the terminology loader.  *)
 (* Labels that correspond to an observable access of the real code carry   *)
 (* the same name in the scheduler's event log (see LoaderTrace.tla).       *)
 (***************************************************************************)
@@ -39,6 +41,9 @@ variables loaded = [uu \in URLS |-> Absent],     \* Terminologies dict: url -> d
           loading = [uu \in URLS |-> 0],          \* url -> thread id (0: no entry)
           tstate = [tt \in Thr |-> "unborn"],     \* unborn / created / running / done
           targ = [tt \in Thr |-> "nourl"],
+          tkind = [tt \in Thr |-> "term"],         \* what the thread runs: Terminologies._load ("term") or TemplateHandler._load ("tmpl")
+          tloaded = [uu \in URLS |-> Absent],      \* the TemplateHandler's own dict: url -> document id (a failed load is not kept)
+          tloading = [uu \in URLS |-> 0],          \* TemplateHandler.loading: url -> thread id
           nthr = 0,
           ndoc = 0,                               \* documents parsed so far (fresh ids)
           err = [pp \in Procs |-> "ok"],          \* exception that killed the process
@@ -99,6 +104,57 @@ procedure Deferred(w)
  DDead: await FALSE;
 }
 
+\* ---- odml/templates.py: TemplateHandler.load / _load / deferred_load.  Own tables; a resource that cannot be fetched or
+\* parsed gives None and is NOT entered into the table; the includes of a template go through the terminology loader above.
+procedure TLoad(tu)
+  variables tjt = 0;
+{
+ TLdIn:  if (tloaded[tu] # Absent) {
+ TLdGet:    ret[self] := tloaded[tu]; return; };
+ TLgIn:  if (tloading[tu] # 0) {
+ TLgGet:    tjt := tloading[tu];
+            if (tjt = 0) { err[self] := "KeyError"; goto THalt; };
+ TJoin:     if (tstate[tjt] = "created") { err[self] := "RuntimeError"; goto THalt; }
+            else if (tstate[tjt] # "done") {
+ TJoined:      await tstate[tjt] = "done"; };
+ TLgPop:    tloading[tu] := 0;
+            call TLoad(tu);
+ TLdRet:    return; };
+ TRaw:   call TRawLoad(tu);
+ TRawRet: return;
+ THalt:  if (self # Main) { tstate[self] := "done"; };
+ THDead: await FALSE;
+}
+
+procedure TRawLoad(tv)
+  variables ti = 1, tdoc = NoneV;
+{
+ TRFetch: if (cache[tv] = "fresh") { skip; }                          \* templates.cache_load knows no reload flag
+          else if (~Fetch[tv]) { ret[self] := NoneV; return; }
+          else { cachew := cachew \cup {tv}; cache[tv] := "fresh"; };
+ TRParse: if (~Parse[tv]) { ret[self] := NoneV; return; } else { ndoc := ndoc + 1; tdoc := ndoc; };
+ TLoop:   while (ti <= Len(IncSeq(tv))) {
+             call Deferred(IncSeq(tv)[ti]);
+ TIncLoad:   call Load(IncSeq(tv)[ti]);
+ TIncNext:   ti := ti + 1;
+          };
+ TPub:    tloaded[tv] := tdoc; ret[self] := tdoc; return;
+}
+
+procedure TDeferred(tw)
+  variables tnewt = 0, tst = 0;
+{
+ TDfLdIn: if (tloaded[tw] # Absent) { return; };
+ TDfLgIn: if (tloading[tw] # 0) { return; } else { nthr := nthr + 1; tnewt := nthr; tstate[nthr] := "created"; targ[nthr] := tw; tkind[nthr] := "tmpl"; };
+ TDfSet:  tloading[tw] := tnewt;
+ TDfGet:  tst := tloading[tw];
+          if (tst = 0) { err[self] := "KeyError"; goto TDHalt; };
+ TDfStart: if (tstate[tst] # "created") { err[self] := "RuntimeError"; goto TDHalt; }
+           else { tstate[tst] := "running"; return; };
+ TDHalt: if (self # Main) { tstate[self] := "done"; };
+ TDDead: await FALSE;
+}
+
 process (M \in {Main})
   variables k = 1;
 {
@@ -112,6 +168,11 @@ process (M \in {Main})
  RfClear:    loaded := [uu \in URLS |-> Absent];
              call Load(Prog[k][2]);
  RfDone:     reload := FALSE;
+          } else if (Prog[k][1] = "tload") {
+             call TLoad(Prog[k][2]);
+ TMRes:      results := Append(results, <<Prog[k][2], ret[self], epoch>>);
+          } else if (Prog[k][1] = "tdeferred") {
+             call TDeferred(Prog[k][2]);
           } else if (Prog[k][1] = "touch") {
  MTouch:     ver[Prog[k][2]] := ver[Prog[k][2]] + 1;     \* the resource changes at its source; caches and tables do not notice
           } else {
@@ -124,19 +185,21 @@ process (M \in {Main})
 process (T \in Thr)
 {
  TBegin: await tstate[self] = "running";
- TRun:   call RawLoad(targ[self]);
+ TRun:   if (tkind[self] = "tmpl") { call TRawLoad(targ[self]); } else { call RawLoad(targ[self]); };
  TDone:  tstate[self] := "done";
 }
 } *)
 \* BEGIN TRANSLATION
 CONSTANT defaultInitValue
-VARIABLES pc, loaded, loading, tstate, targ, nthr, ndoc, err, results, cachew, 
-          cache, reload, epoch, ver, ret, stack, u, jt, v, i, doc, w, newt, 
-          st, k
+VARIABLES pc, loaded, loading, tstate, targ, tkind, tloaded, tloading, nthr, 
+          ndoc, err, results, cachew, cache, reload, epoch, ver, ret, stack, 
+          u, jt, v, i, doc, w, newt, st, tu, tjt, tv, ti, tdoc, tw, tnewt, 
+          tst, k
 
-vars == << pc, loaded, loading, tstate, targ, nthr, ndoc, err, results, 
-           cachew, cache, reload, epoch, ver, ret, stack, u, jt, v, i, doc, w, 
-           newt, st, k >>
+vars == << pc, loaded, loading, tstate, targ, tkind, tloaded, tloading, nthr, 
+           ndoc, err, results, cachew, cache, reload, epoch, ver, ret, stack, 
+           u, jt, v, i, doc, w, newt, st, tu, tjt, tv, ti, tdoc, tw, tnewt, 
+           tst, k >>
 
 ProcSet == ({Main}) \cup (Thr)
 
@@ -145,6 +208,9 @@ Init == (* Global variables *)
         /\ loading = [uu \in URLS |-> 0]
         /\ tstate = [tt \in Thr |-> "unborn"]
         /\ targ = [tt \in Thr |-> "nourl"]
+        /\ tkind = [tt \in Thr |-> "term"]
+        /\ tloaded = [uu \in URLS |-> Absent]
+        /\ tloading = [uu \in URLS |-> 0]
         /\ nthr = 0
         /\ ndoc = 0
         /\ err = [pp \in Procs |-> "ok"]
@@ -166,6 +232,17 @@ Init == (* Global variables *)
         /\ w = [ self \in ProcSet |-> defaultInitValue]
         /\ newt = [ self \in ProcSet |-> 0]
         /\ st = [ self \in ProcSet |-> 0]
+        (* Procedure TLoad *)
+        /\ tu = [ self \in ProcSet |-> defaultInitValue]
+        /\ tjt = [ self \in ProcSet |-> 0]
+        (* Procedure TRawLoad *)
+        /\ tv = [ self \in ProcSet |-> defaultInitValue]
+        /\ ti = [ self \in ProcSet |-> 1]
+        /\ tdoc = [ self \in ProcSet |-> NoneV]
+        (* Procedure TDeferred *)
+        /\ tw = [ self \in ProcSet |-> defaultInitValue]
+        /\ tnewt = [ self \in ProcSet |-> 0]
+        /\ tst = [ self \in ProcSet |-> 0]
         (* Process M *)
         /\ k = [self \in {Main} |-> 1]
         /\ stack = [self \in ProcSet |-> << >>]
@@ -176,9 +253,11 @@ LdIn(self) == /\ pc[self] = "LdIn"
               /\ IF loaded[u[self]] # Absent
                     THEN /\ pc' = [pc EXCEPT ![self] = "LdGet"]
                     ELSE /\ pc' = [pc EXCEPT ![self] = "LgIn"]
-              /\ UNCHANGED << loaded, loading, tstate, targ, nthr, ndoc, err, 
-                              results, cachew, cache, reload, epoch, ver, ret, 
-                              stack, u, jt, v, i, doc, w, newt, st, k >>
+              /\ UNCHANGED << loaded, loading, tstate, targ, tkind, tloaded, 
+                              tloading, nthr, ndoc, err, results, cachew, 
+                              cache, reload, epoch, ver, ret, stack, u, jt, v, 
+                              i, doc, w, newt, st, tu, tjt, tv, ti, tdoc, tw, 
+                              tnewt, tst, k >>
 
 LdGet(self) == /\ pc[self] = "LdGet"
                /\ ret' = [ret EXCEPT ![self] = loaded[u[self]]]
@@ -186,17 +265,20 @@ LdGet(self) == /\ pc[self] = "LdGet"
                /\ jt' = [jt EXCEPT ![self] = Head(stack[self]).jt]
                /\ u' = [u EXCEPT ![self] = Head(stack[self]).u]
                /\ stack' = [stack EXCEPT ![self] = Tail(stack[self])]
-               /\ UNCHANGED << loaded, loading, tstate, targ, nthr, ndoc, err, 
-                               results, cachew, cache, reload, epoch, ver, v, 
-                               i, doc, w, newt, st, k >>
+               /\ UNCHANGED << loaded, loading, tstate, targ, tkind, tloaded, 
+                               tloading, nthr, ndoc, err, results, cachew, 
+                               cache, reload, epoch, ver, v, i, doc, w, newt, 
+                               st, tu, tjt, tv, ti, tdoc, tw, tnewt, tst, k >>
 
 LgIn(self) == /\ pc[self] = "LgIn"
               /\ IF loading[u[self]] # 0
                     THEN /\ pc' = [pc EXCEPT ![self] = "LgGet"]
                     ELSE /\ pc' = [pc EXCEPT ![self] = "Raw"]
-              /\ UNCHANGED << loaded, loading, tstate, targ, nthr, ndoc, err, 
-                              results, cachew, cache, reload, epoch, ver, ret, 
-                              stack, u, jt, v, i, doc, w, newt, st, k >>
+              /\ UNCHANGED << loaded, loading, tstate, targ, tkind, tloaded, 
+                              tloading, nthr, ndoc, err, results, cachew, 
+                              cache, reload, epoch, ver, ret, stack, u, jt, v, 
+                              i, doc, w, newt, st, tu, tjt, tv, ti, tdoc, tw, 
+                              tnewt, tst, k >>
 
 LgGet(self) == /\ pc[self] = "LgGet"
                /\ jt' = [jt EXCEPT ![self] = loading[u[self]]]
@@ -205,9 +287,11 @@ LgGet(self) == /\ pc[self] = "LgGet"
                           /\ pc' = [pc EXCEPT ![self] = "Halt"]
                      ELSE /\ pc' = [pc EXCEPT ![self] = "Join"]
                           /\ err' = err
-               /\ UNCHANGED << loaded, loading, tstate, targ, nthr, ndoc, 
-                               results, cachew, cache, reload, epoch, ver, ret, 
-                               stack, u, v, i, doc, w, newt, st, k >>
+               /\ UNCHANGED << loaded, loading, tstate, targ, tkind, tloaded, 
+                               tloading, nthr, ndoc, results, cachew, cache, 
+                               reload, epoch, ver, ret, stack, u, v, i, doc, w, 
+                               newt, st, tu, tjt, tv, ti, tdoc, tw, tnewt, tst, 
+                               k >>
 
 Join(self) == /\ pc[self] = "Join"
               /\ IF tstate[jt[self]] = "created"
@@ -217,16 +301,20 @@ Join(self) == /\ pc[self] = "Join"
                                THEN /\ pc' = [pc EXCEPT ![self] = "Joined"]
                                ELSE /\ pc' = [pc EXCEPT ![self] = "LgPop"]
                          /\ err' = err
-              /\ UNCHANGED << loaded, loading, tstate, targ, nthr, ndoc, 
-                              results, cachew, cache, reload, epoch, ver, ret, 
-                              stack, u, jt, v, i, doc, w, newt, st, k >>
+              /\ UNCHANGED << loaded, loading, tstate, targ, tkind, tloaded, 
+                              tloading, nthr, ndoc, results, cachew, cache, 
+                              reload, epoch, ver, ret, stack, u, jt, v, i, doc, 
+                              w, newt, st, tu, tjt, tv, ti, tdoc, tw, tnewt, 
+                              tst, k >>
 
 Joined(self) == /\ pc[self] = "Joined"
                 /\ tstate[jt[self]] = "done"
                 /\ pc' = [pc EXCEPT ![self] = "LgPop"]
-                /\ UNCHANGED << loaded, loading, tstate, targ, nthr, ndoc, err, 
-                                results, cachew, cache, reload, epoch, ver, 
-                                ret, stack, u, jt, v, i, doc, w, newt, st, k >>
+                /\ UNCHANGED << loaded, loading, tstate, targ, tkind, tloaded, 
+                                tloading, nthr, ndoc, err, results, cachew, 
+                                cache, reload, epoch, ver, ret, stack, u, jt, 
+                                v, i, doc, w, newt, st, tu, tjt, tv, ti, tdoc, 
+                                tw, tnewt, tst, k >>
 
 LgPop(self) == /\ pc[self] = "LgPop"
                /\ loading' = [loading EXCEPT ![u[self]] = 0]
@@ -238,18 +326,21 @@ LgPop(self) == /\ pc[self] = "LgPop"
                   /\ u' = [u EXCEPT ![self] = u[self]]
                /\ jt' = [jt EXCEPT ![self] = 0]
                /\ pc' = [pc EXCEPT ![self] = "LdIn"]
-               /\ UNCHANGED << loaded, tstate, targ, nthr, ndoc, err, results, 
-                               cachew, cache, reload, epoch, ver, ret, v, i, 
-                               doc, w, newt, st, k >>
+               /\ UNCHANGED << loaded, tstate, targ, tkind, tloaded, tloading, 
+                               nthr, ndoc, err, results, cachew, cache, reload, 
+                               epoch, ver, ret, v, i, doc, w, newt, st, tu, 
+                               tjt, tv, ti, tdoc, tw, tnewt, tst, k >>
 
 LdRet(self) == /\ pc[self] = "LdRet"
                /\ pc' = [pc EXCEPT ![self] = Head(stack[self]).pc]
                /\ jt' = [jt EXCEPT ![self] = Head(stack[self]).jt]
                /\ u' = [u EXCEPT ![self] = Head(stack[self]).u]
                /\ stack' = [stack EXCEPT ![self] = Tail(stack[self])]
-               /\ UNCHANGED << loaded, loading, tstate, targ, nthr, ndoc, err, 
-                               results, cachew, cache, reload, epoch, ver, ret, 
-                               v, i, doc, w, newt, st, k >>
+               /\ UNCHANGED << loaded, loading, tstate, targ, tkind, tloaded, 
+                               tloading, nthr, ndoc, err, results, cachew, 
+                               cache, reload, epoch, ver, ret, v, i, doc, w, 
+                               newt, st, tu, tjt, tv, ti, tdoc, tw, tnewt, tst, 
+                               k >>
 
 Raw(self) == /\ pc[self] = "Raw"
              /\ /\ stack' = [stack EXCEPT ![self] = << [ procedure |->  "RawLoad",
@@ -262,18 +353,21 @@ Raw(self) == /\ pc[self] = "Raw"
              /\ i' = [i EXCEPT ![self] = 1]
              /\ doc' = [doc EXCEPT ![self] = NoneV]
              /\ pc' = [pc EXCEPT ![self] = "RFetch"]
-             /\ UNCHANGED << loaded, loading, tstate, targ, nthr, ndoc, err, 
-                             results, cachew, cache, reload, epoch, ver, ret, 
-                             u, jt, w, newt, st, k >>
+             /\ UNCHANGED << loaded, loading, tstate, targ, tkind, tloaded, 
+                             tloading, nthr, ndoc, err, results, cachew, cache, 
+                             reload, epoch, ver, ret, u, jt, w, newt, st, tu, 
+                             tjt, tv, ti, tdoc, tw, tnewt, tst, k >>
 
 RawRet(self) == /\ pc[self] = "RawRet"
                 /\ pc' = [pc EXCEPT ![self] = Head(stack[self]).pc]
                 /\ jt' = [jt EXCEPT ![self] = Head(stack[self]).jt]
                 /\ u' = [u EXCEPT ![self] = Head(stack[self]).u]
                 /\ stack' = [stack EXCEPT ![self] = Tail(stack[self])]
-                /\ UNCHANGED << loaded, loading, tstate, targ, nthr, ndoc, err, 
-                                results, cachew, cache, reload, epoch, ver, 
-                                ret, v, i, doc, w, newt, st, k >>
+                /\ UNCHANGED << loaded, loading, tstate, targ, tkind, tloaded, 
+                                tloading, nthr, ndoc, err, results, cachew, 
+                                cache, reload, epoch, ver, ret, v, i, doc, w, 
+                                newt, st, tu, tjt, tv, ti, tdoc, tw, tnewt, 
+                                tst, k >>
 
 Halt(self) == /\ pc[self] = "Halt"
               /\ IF self # Main
@@ -281,16 +375,20 @@ Halt(self) == /\ pc[self] = "Halt"
                     ELSE /\ TRUE
                          /\ UNCHANGED tstate
               /\ pc' = [pc EXCEPT ![self] = "HDead"]
-              /\ UNCHANGED << loaded, loading, targ, nthr, ndoc, err, results, 
-                              cachew, cache, reload, epoch, ver, ret, stack, u, 
-                              jt, v, i, doc, w, newt, st, k >>
+              /\ UNCHANGED << loaded, loading, targ, tkind, tloaded, tloading, 
+                              nthr, ndoc, err, results, cachew, cache, reload, 
+                              epoch, ver, ret, stack, u, jt, v, i, doc, w, 
+                              newt, st, tu, tjt, tv, ti, tdoc, tw, tnewt, tst, 
+                              k >>
 
 HDead(self) == /\ pc[self] = "HDead"
                /\ FALSE
                /\ pc' = [pc EXCEPT ![self] = "Error"]
-               /\ UNCHANGED << loaded, loading, tstate, targ, nthr, ndoc, err, 
-                               results, cachew, cache, reload, epoch, ver, ret, 
-                               stack, u, jt, v, i, doc, w, newt, st, k >>
+               /\ UNCHANGED << loaded, loading, tstate, targ, tkind, tloaded, 
+                               tloading, nthr, ndoc, err, results, cachew, 
+                               cache, reload, epoch, ver, ret, stack, u, jt, v, 
+                               i, doc, w, newt, st, tu, tjt, tv, ti, tdoc, tw, 
+                               tnewt, tst, k >>
 
 Load(self) == LdIn(self) \/ LdGet(self) \/ LgIn(self) \/ LgGet(self)
                  \/ Join(self) \/ Joined(self) \/ LgPop(self)
@@ -315,9 +413,10 @@ RFetch(self) == /\ pc[self] = "RFetch"
                                       /\ cache' = [cache EXCEPT ![v[self]] = "fresh"]
                                       /\ pc' = [pc EXCEPT ![self] = "RParse"]
                                       /\ UNCHANGED << ret, stack, v, i, doc >>
-                /\ UNCHANGED << loaded, loading, tstate, targ, nthr, ndoc, err, 
-                                results, reload, epoch, ver, u, jt, w, newt, 
-                                st, k >>
+                /\ UNCHANGED << loaded, loading, tstate, targ, tkind, tloaded, 
+                                tloading, nthr, ndoc, err, results, reload, 
+                                epoch, ver, u, jt, w, newt, st, tu, tjt, tv, 
+                                ti, tdoc, tw, tnewt, tst, k >>
 
 RParse(self) == /\ pc[self] = "RParse"
                 /\ IF ~Parse[v[self]]
@@ -327,9 +426,11 @@ RParse(self) == /\ pc[self] = "RParse"
                       ELSE /\ ndoc' = ndoc + 1
                            /\ doc' = [doc EXCEPT ![self] = ndoc']
                            /\ pc' = [pc EXCEPT ![self] = "Loop"]
-                /\ UNCHANGED << loaded, loading, tstate, targ, nthr, err, 
-                                results, cachew, cache, reload, epoch, ver, 
-                                ret, stack, u, jt, v, i, w, newt, st, k >>
+                /\ UNCHANGED << loaded, loading, tstate, targ, tkind, tloaded, 
+                                tloading, nthr, err, results, cachew, cache, 
+                                reload, epoch, ver, ret, stack, u, jt, v, i, w, 
+                                newt, st, tu, tjt, tv, ti, tdoc, tw, tnewt, 
+                                tst, k >>
 
 Loop(self) == /\ pc[self] = "Loop"
               /\ IF i[self] <= Len(IncSeq(v[self]))
@@ -345,9 +446,10 @@ Loop(self) == /\ pc[self] = "Loop"
                          /\ pc' = [pc EXCEPT ![self] = "DfLdIn"]
                     ELSE /\ pc' = [pc EXCEPT ![self] = "Pub"]
                          /\ UNCHANGED << stack, w, newt, st >>
-              /\ UNCHANGED << loaded, loading, tstate, targ, nthr, ndoc, err, 
-                              results, cachew, cache, reload, epoch, ver, ret, 
-                              u, jt, v, i, doc, k >>
+              /\ UNCHANGED << loaded, loading, tstate, targ, tkind, tloaded, 
+                              tloading, nthr, ndoc, err, results, cachew, 
+                              cache, reload, epoch, ver, ret, u, jt, v, i, doc, 
+                              tu, tjt, tv, ti, tdoc, tw, tnewt, tst, k >>
 
 IncLoad(self) == /\ pc[self] = "IncLoad"
                  /\ /\ stack' = [stack EXCEPT ![self] = << [ procedure |->  "Load",
@@ -358,17 +460,20 @@ IncLoad(self) == /\ pc[self] = "IncLoad"
                     /\ u' = [u EXCEPT ![self] = IncSeq(v[self])[i[self]]]
                  /\ jt' = [jt EXCEPT ![self] = 0]
                  /\ pc' = [pc EXCEPT ![self] = "LdIn"]
-                 /\ UNCHANGED << loaded, loading, tstate, targ, nthr, ndoc, 
-                                 err, results, cachew, cache, reload, epoch, 
-                                 ver, ret, v, i, doc, w, newt, st, k >>
+                 /\ UNCHANGED << loaded, loading, tstate, targ, tkind, tloaded, 
+                                 tloading, nthr, ndoc, err, results, cachew, 
+                                 cache, reload, epoch, ver, ret, v, i, doc, w, 
+                                 newt, st, tu, tjt, tv, ti, tdoc, tw, tnewt, 
+                                 tst, k >>
 
 IncNext(self) == /\ pc[self] = "IncNext"
                  /\ i' = [i EXCEPT ![self] = i[self] + 1]
                  /\ pc' = [pc EXCEPT ![self] = "Loop"]
-                 /\ UNCHANGED << loaded, loading, tstate, targ, nthr, ndoc, 
-                                 err, results, cachew, cache, reload, epoch, 
-                                 ver, ret, stack, u, jt, v, doc, w, newt, st, 
-                                 k >>
+                 /\ UNCHANGED << loaded, loading, tstate, targ, tkind, tloaded, 
+                                 tloading, nthr, ndoc, err, results, cachew, 
+                                 cache, reload, epoch, ver, ret, stack, u, jt, 
+                                 v, doc, w, newt, st, tu, tjt, tv, ti, tdoc, 
+                                 tw, tnewt, tst, k >>
 
 Pub(self) == /\ pc[self] = "Pub"
              /\ loaded' = [loaded EXCEPT ![v[self]] = doc[self]]
@@ -378,9 +483,10 @@ Pub(self) == /\ pc[self] = "Pub"
              /\ doc' = [doc EXCEPT ![self] = Head(stack[self]).doc]
              /\ v' = [v EXCEPT ![self] = Head(stack[self]).v]
              /\ stack' = [stack EXCEPT ![self] = Tail(stack[self])]
-             /\ UNCHANGED << loading, tstate, targ, nthr, ndoc, err, results, 
-                             cachew, cache, reload, epoch, ver, u, jt, w, newt, 
-                             st, k >>
+             /\ UNCHANGED << loading, tstate, targ, tkind, tloaded, tloading, 
+                             nthr, ndoc, err, results, cachew, cache, reload, 
+                             epoch, ver, u, jt, w, newt, st, tu, tjt, tv, ti, 
+                             tdoc, tw, tnewt, tst, k >>
 
 RawLoad(self) == RFetch(self) \/ RParse(self) \/ Loop(self)
                     \/ IncLoad(self) \/ IncNext(self) \/ Pub(self)
@@ -394,9 +500,10 @@ DfLdIn(self) == /\ pc[self] = "DfLdIn"
                            /\ stack' = [stack EXCEPT ![self] = Tail(stack[self])]
                       ELSE /\ pc' = [pc EXCEPT ![self] = "DfLgIn"]
                            /\ UNCHANGED << stack, w, newt, st >>
-                /\ UNCHANGED << loaded, loading, tstate, targ, nthr, ndoc, err, 
-                                results, cachew, cache, reload, epoch, ver, 
-                                ret, u, jt, v, i, doc, k >>
+                /\ UNCHANGED << loaded, loading, tstate, targ, tkind, tloaded, 
+                                tloading, nthr, ndoc, err, results, cachew, 
+                                cache, reload, epoch, ver, ret, u, jt, v, i, 
+                                doc, tu, tjt, tv, ti, tdoc, tw, tnewt, tst, k >>
 
 DfLgIn(self) == /\ pc[self] = "DfLgIn"
                 /\ IF loading[w[self]] # 0
@@ -412,16 +519,19 @@ DfLgIn(self) == /\ pc[self] = "DfLgIn"
                            /\ targ' = [targ EXCEPT ![nthr'] = w[self]]
                            /\ pc' = [pc EXCEPT ![self] = "DfSet"]
                            /\ UNCHANGED << stack, w, st >>
-                /\ UNCHANGED << loaded, loading, ndoc, err, results, cachew, 
-                                cache, reload, epoch, ver, ret, u, jt, v, i, 
-                                doc, k >>
+                /\ UNCHANGED << loaded, loading, tkind, tloaded, tloading, 
+                                ndoc, err, results, cachew, cache, reload, 
+                                epoch, ver, ret, u, jt, v, i, doc, tu, tjt, tv, 
+                                ti, tdoc, tw, tnewt, tst, k >>
 
 DfSet(self) == /\ pc[self] = "DfSet"
                /\ loading' = [loading EXCEPT ![w[self]] = newt[self]]
                /\ pc' = [pc EXCEPT ![self] = "DfGet"]
-               /\ UNCHANGED << loaded, tstate, targ, nthr, ndoc, err, results, 
-                               cachew, cache, reload, epoch, ver, ret, stack, 
-                               u, jt, v, i, doc, w, newt, st, k >>
+               /\ UNCHANGED << loaded, tstate, targ, tkind, tloaded, tloading, 
+                               nthr, ndoc, err, results, cachew, cache, reload, 
+                               epoch, ver, ret, stack, u, jt, v, i, doc, w, 
+                               newt, st, tu, tjt, tv, ti, tdoc, tw, tnewt, tst, 
+                               k >>
 
 DfGet(self) == /\ pc[self] = "DfGet"
                /\ st' = [st EXCEPT ![self] = loading[w[self]]]
@@ -430,9 +540,11 @@ DfGet(self) == /\ pc[self] = "DfGet"
                           /\ pc' = [pc EXCEPT ![self] = "DHalt"]
                      ELSE /\ pc' = [pc EXCEPT ![self] = "DfStart"]
                           /\ err' = err
-               /\ UNCHANGED << loaded, loading, tstate, targ, nthr, ndoc, 
-                               results, cachew, cache, reload, epoch, ver, ret, 
-                               stack, u, jt, v, i, doc, w, newt, k >>
+               /\ UNCHANGED << loaded, loading, tstate, targ, tkind, tloaded, 
+                               tloading, nthr, ndoc, results, cachew, cache, 
+                               reload, epoch, ver, ret, stack, u, jt, v, i, 
+                               doc, w, newt, tu, tjt, tv, ti, tdoc, tw, tnewt, 
+                               tst, k >>
 
 DfStart(self) == /\ pc[self] = "DfStart"
                  /\ IF tstate[st[self]] # "created"
@@ -446,9 +558,10 @@ DfStart(self) == /\ pc[self] = "DfStart"
                             /\ w' = [w EXCEPT ![self] = Head(stack[self]).w]
                             /\ stack' = [stack EXCEPT ![self] = Tail(stack[self])]
                             /\ err' = err
-                 /\ UNCHANGED << loaded, loading, targ, nthr, ndoc, results, 
-                                 cachew, cache, reload, epoch, ver, ret, u, jt, 
-                                 v, i, doc, k >>
+                 /\ UNCHANGED << loaded, loading, targ, tkind, tloaded, 
+                                 tloading, nthr, ndoc, results, cachew, cache, 
+                                 reload, epoch, ver, ret, u, jt, v, i, doc, tu, 
+                                 tjt, tv, ti, tdoc, tw, tnewt, tst, k >>
 
 DHalt(self) == /\ pc[self] = "DHalt"
                /\ IF self # Main
@@ -456,27 +569,378 @@ DHalt(self) == /\ pc[self] = "DHalt"
                      ELSE /\ TRUE
                           /\ UNCHANGED tstate
                /\ pc' = [pc EXCEPT ![self] = "DDead"]
-               /\ UNCHANGED << loaded, loading, targ, nthr, ndoc, err, results, 
-                               cachew, cache, reload, epoch, ver, ret, stack, 
-                               u, jt, v, i, doc, w, newt, st, k >>
+               /\ UNCHANGED << loaded, loading, targ, tkind, tloaded, tloading, 
+                               nthr, ndoc, err, results, cachew, cache, reload, 
+                               epoch, ver, ret, stack, u, jt, v, i, doc, w, 
+                               newt, st, tu, tjt, tv, ti, tdoc, tw, tnewt, tst, 
+                               k >>
 
 DDead(self) == /\ pc[self] = "DDead"
                /\ FALSE
                /\ pc' = [pc EXCEPT ![self] = "Error"]
-               /\ UNCHANGED << loaded, loading, tstate, targ, nthr, ndoc, err, 
-                               results, cachew, cache, reload, epoch, ver, ret, 
-                               stack, u, jt, v, i, doc, w, newt, st, k >>
+               /\ UNCHANGED << loaded, loading, tstate, targ, tkind, tloaded, 
+                               tloading, nthr, ndoc, err, results, cachew, 
+                               cache, reload, epoch, ver, ret, stack, u, jt, v, 
+                               i, doc, w, newt, st, tu, tjt, tv, ti, tdoc, tw, 
+                               tnewt, tst, k >>
 
 Deferred(self) == DfLdIn(self) \/ DfLgIn(self) \/ DfSet(self)
                      \/ DfGet(self) \/ DfStart(self) \/ DHalt(self)
                      \/ DDead(self)
 
+TLdIn(self) == /\ pc[self] = "TLdIn"
+               /\ IF tloaded[tu[self]] # Absent
+                     THEN /\ pc' = [pc EXCEPT ![self] = "TLdGet"]
+                     ELSE /\ pc' = [pc EXCEPT ![self] = "TLgIn"]
+               /\ UNCHANGED << loaded, loading, tstate, targ, tkind, tloaded, 
+                               tloading, nthr, ndoc, err, results, cachew, 
+                               cache, reload, epoch, ver, ret, stack, u, jt, v, 
+                               i, doc, w, newt, st, tu, tjt, tv, ti, tdoc, tw, 
+                               tnewt, tst, k >>
+
+TLdGet(self) == /\ pc[self] = "TLdGet"
+                /\ ret' = [ret EXCEPT ![self] = tloaded[tu[self]]]
+                /\ pc' = [pc EXCEPT ![self] = Head(stack[self]).pc]
+                /\ tjt' = [tjt EXCEPT ![self] = Head(stack[self]).tjt]
+                /\ tu' = [tu EXCEPT ![self] = Head(stack[self]).tu]
+                /\ stack' = [stack EXCEPT ![self] = Tail(stack[self])]
+                /\ UNCHANGED << loaded, loading, tstate, targ, tkind, tloaded, 
+                                tloading, nthr, ndoc, err, results, cachew, 
+                                cache, reload, epoch, ver, u, jt, v, i, doc, w, 
+                                newt, st, tv, ti, tdoc, tw, tnewt, tst, k >>
+
+TLgIn(self) == /\ pc[self] = "TLgIn"
+               /\ IF tloading[tu[self]] # 0
+                     THEN /\ pc' = [pc EXCEPT ![self] = "TLgGet"]
+                     ELSE /\ pc' = [pc EXCEPT ![self] = "TRaw"]
+               /\ UNCHANGED << loaded, loading, tstate, targ, tkind, tloaded, 
+                               tloading, nthr, ndoc, err, results, cachew, 
+                               cache, reload, epoch, ver, ret, stack, u, jt, v, 
+                               i, doc, w, newt, st, tu, tjt, tv, ti, tdoc, tw, 
+                               tnewt, tst, k >>
+
+TLgGet(self) == /\ pc[self] = "TLgGet"
+                /\ tjt' = [tjt EXCEPT ![self] = tloading[tu[self]]]
+                /\ IF tjt'[self] = 0
+                      THEN /\ err' = [err EXCEPT ![self] = "KeyError"]
+                           /\ pc' = [pc EXCEPT ![self] = "THalt"]
+                      ELSE /\ pc' = [pc EXCEPT ![self] = "TJoin"]
+                           /\ err' = err
+                /\ UNCHANGED << loaded, loading, tstate, targ, tkind, tloaded, 
+                                tloading, nthr, ndoc, results, cachew, cache, 
+                                reload, epoch, ver, ret, stack, u, jt, v, i, 
+                                doc, w, newt, st, tu, tv, ti, tdoc, tw, tnewt, 
+                                tst, k >>
+
+TJoin(self) == /\ pc[self] = "TJoin"
+               /\ IF tstate[tjt[self]] = "created"
+                     THEN /\ err' = [err EXCEPT ![self] = "RuntimeError"]
+                          /\ pc' = [pc EXCEPT ![self] = "THalt"]
+                     ELSE /\ IF tstate[tjt[self]] # "done"
+                                THEN /\ pc' = [pc EXCEPT ![self] = "TJoined"]
+                                ELSE /\ pc' = [pc EXCEPT ![self] = "TLgPop"]
+                          /\ err' = err
+               /\ UNCHANGED << loaded, loading, tstate, targ, tkind, tloaded, 
+                               tloading, nthr, ndoc, results, cachew, cache, 
+                               reload, epoch, ver, ret, stack, u, jt, v, i, 
+                               doc, w, newt, st, tu, tjt, tv, ti, tdoc, tw, 
+                               tnewt, tst, k >>
+
+TJoined(self) == /\ pc[self] = "TJoined"
+                 /\ tstate[tjt[self]] = "done"
+                 /\ pc' = [pc EXCEPT ![self] = "TLgPop"]
+                 /\ UNCHANGED << loaded, loading, tstate, targ, tkind, tloaded, 
+                                 tloading, nthr, ndoc, err, results, cachew, 
+                                 cache, reload, epoch, ver, ret, stack, u, jt, 
+                                 v, i, doc, w, newt, st, tu, tjt, tv, ti, tdoc, 
+                                 tw, tnewt, tst, k >>
+
+TLgPop(self) == /\ pc[self] = "TLgPop"
+                /\ tloading' = [tloading EXCEPT ![tu[self]] = 0]
+                /\ /\ stack' = [stack EXCEPT ![self] = << [ procedure |->  "TLoad",
+                                                            pc        |->  "TLdRet",
+                                                            tjt       |->  tjt[self],
+                                                            tu        |->  tu[self] ] >>
+                                                        \o stack[self]]
+                   /\ tu' = [tu EXCEPT ![self] = tu[self]]
+                /\ tjt' = [tjt EXCEPT ![self] = 0]
+                /\ pc' = [pc EXCEPT ![self] = "TLdIn"]
+                /\ UNCHANGED << loaded, loading, tstate, targ, tkind, tloaded, 
+                                nthr, ndoc, err, results, cachew, cache, 
+                                reload, epoch, ver, ret, u, jt, v, i, doc, w, 
+                                newt, st, tv, ti, tdoc, tw, tnewt, tst, k >>
+
+TLdRet(self) == /\ pc[self] = "TLdRet"
+                /\ pc' = [pc EXCEPT ![self] = Head(stack[self]).pc]
+                /\ tjt' = [tjt EXCEPT ![self] = Head(stack[self]).tjt]
+                /\ tu' = [tu EXCEPT ![self] = Head(stack[self]).tu]
+                /\ stack' = [stack EXCEPT ![self] = Tail(stack[self])]
+                /\ UNCHANGED << loaded, loading, tstate, targ, tkind, tloaded, 
+                                tloading, nthr, ndoc, err, results, cachew, 
+                                cache, reload, epoch, ver, ret, u, jt, v, i, 
+                                doc, w, newt, st, tv, ti, tdoc, tw, tnewt, tst, 
+                                k >>
+
+TRaw(self) == /\ pc[self] = "TRaw"
+              /\ /\ stack' = [stack EXCEPT ![self] = << [ procedure |->  "TRawLoad",
+                                                          pc        |->  "TRawRet",
+                                                          ti        |->  ti[self],
+                                                          tdoc      |->  tdoc[self],
+                                                          tv        |->  tv[self] ] >>
+                                                      \o stack[self]]
+                 /\ tv' = [tv EXCEPT ![self] = tu[self]]
+              /\ ti' = [ti EXCEPT ![self] = 1]
+              /\ tdoc' = [tdoc EXCEPT ![self] = NoneV]
+              /\ pc' = [pc EXCEPT ![self] = "TRFetch"]
+              /\ UNCHANGED << loaded, loading, tstate, targ, tkind, tloaded, 
+                              tloading, nthr, ndoc, err, results, cachew, 
+                              cache, reload, epoch, ver, ret, u, jt, v, i, doc, 
+                              w, newt, st, tu, tjt, tw, tnewt, tst, k >>
+
+TRawRet(self) == /\ pc[self] = "TRawRet"
+                 /\ pc' = [pc EXCEPT ![self] = Head(stack[self]).pc]
+                 /\ tjt' = [tjt EXCEPT ![self] = Head(stack[self]).tjt]
+                 /\ tu' = [tu EXCEPT ![self] = Head(stack[self]).tu]
+                 /\ stack' = [stack EXCEPT ![self] = Tail(stack[self])]
+                 /\ UNCHANGED << loaded, loading, tstate, targ, tkind, tloaded, 
+                                 tloading, nthr, ndoc, err, results, cachew, 
+                                 cache, reload, epoch, ver, ret, u, jt, v, i, 
+                                 doc, w, newt, st, tv, ti, tdoc, tw, tnewt, 
+                                 tst, k >>
+
+THalt(self) == /\ pc[self] = "THalt"
+               /\ IF self # Main
+                     THEN /\ tstate' = [tstate EXCEPT ![self] = "done"]
+                     ELSE /\ TRUE
+                          /\ UNCHANGED tstate
+               /\ pc' = [pc EXCEPT ![self] = "THDead"]
+               /\ UNCHANGED << loaded, loading, targ, tkind, tloaded, tloading, 
+                               nthr, ndoc, err, results, cachew, cache, reload, 
+                               epoch, ver, ret, stack, u, jt, v, i, doc, w, 
+                               newt, st, tu, tjt, tv, ti, tdoc, tw, tnewt, tst, 
+                               k >>
+
+THDead(self) == /\ pc[self] = "THDead"
+                /\ FALSE
+                /\ pc' = [pc EXCEPT ![self] = "Error"]
+                /\ UNCHANGED << loaded, loading, tstate, targ, tkind, tloaded, 
+                                tloading, nthr, ndoc, err, results, cachew, 
+                                cache, reload, epoch, ver, ret, stack, u, jt, 
+                                v, i, doc, w, newt, st, tu, tjt, tv, ti, tdoc, 
+                                tw, tnewt, tst, k >>
+
+TLoad(self) == TLdIn(self) \/ TLdGet(self) \/ TLgIn(self) \/ TLgGet(self)
+                  \/ TJoin(self) \/ TJoined(self) \/ TLgPop(self)
+                  \/ TLdRet(self) \/ TRaw(self) \/ TRawRet(self)
+                  \/ THalt(self) \/ THDead(self)
+
+TRFetch(self) == /\ pc[self] = "TRFetch"
+                 /\ IF cache[tv[self]] = "fresh"
+                       THEN /\ TRUE
+                            /\ pc' = [pc EXCEPT ![self] = "TRParse"]
+                            /\ UNCHANGED << cachew, cache, ret, stack, tv, ti, 
+                                            tdoc >>
+                       ELSE /\ IF ~Fetch[tv[self]]
+                                  THEN /\ ret' = [ret EXCEPT ![self] = NoneV]
+                                       /\ pc' = [pc EXCEPT ![self] = Head(stack[self]).pc]
+                                       /\ ti' = [ti EXCEPT ![self] = Head(stack[self]).ti]
+                                       /\ tdoc' = [tdoc EXCEPT ![self] = Head(stack[self]).tdoc]
+                                       /\ tv' = [tv EXCEPT ![self] = Head(stack[self]).tv]
+                                       /\ stack' = [stack EXCEPT ![self] = Tail(stack[self])]
+                                       /\ UNCHANGED << cachew, cache >>
+                                  ELSE /\ cachew' = (cachew \cup {tv[self]})
+                                       /\ cache' = [cache EXCEPT ![tv[self]] = "fresh"]
+                                       /\ pc' = [pc EXCEPT ![self] = "TRParse"]
+                                       /\ UNCHANGED << ret, stack, tv, ti, 
+                                                       tdoc >>
+                 /\ UNCHANGED << loaded, loading, tstate, targ, tkind, tloaded, 
+                                 tloading, nthr, ndoc, err, results, reload, 
+                                 epoch, ver, u, jt, v, i, doc, w, newt, st, tu, 
+                                 tjt, tw, tnewt, tst, k >>
+
+TRParse(self) == /\ pc[self] = "TRParse"
+                 /\ IF ~Parse[tv[self]]
+                       THEN /\ ret' = [ret EXCEPT ![self] = NoneV]
+                            /\ pc' = [pc EXCEPT ![self] = Head(stack[self]).pc]
+                            /\ ti' = [ti EXCEPT ![self] = Head(stack[self]).ti]
+                            /\ tdoc' = [tdoc EXCEPT ![self] = Head(stack[self]).tdoc]
+                            /\ tv' = [tv EXCEPT ![self] = Head(stack[self]).tv]
+                            /\ stack' = [stack EXCEPT ![self] = Tail(stack[self])]
+                            /\ ndoc' = ndoc
+                       ELSE /\ ndoc' = ndoc + 1
+                            /\ tdoc' = [tdoc EXCEPT ![self] = ndoc']
+                            /\ pc' = [pc EXCEPT ![self] = "TLoop"]
+                            /\ UNCHANGED << ret, stack, tv, ti >>
+                 /\ UNCHANGED << loaded, loading, tstate, targ, tkind, tloaded, 
+                                 tloading, nthr, err, results, cachew, cache, 
+                                 reload, epoch, ver, u, jt, v, i, doc, w, newt, 
+                                 st, tu, tjt, tw, tnewt, tst, k >>
+
+TLoop(self) == /\ pc[self] = "TLoop"
+               /\ IF ti[self] <= Len(IncSeq(tv[self]))
+                     THEN /\ /\ stack' = [stack EXCEPT ![self] = << [ procedure |->  "Deferred",
+                                                                      pc        |->  "TIncLoad",
+                                                                      newt      |->  newt[self],
+                                                                      st        |->  st[self],
+                                                                      w         |->  w[self] ] >>
+                                                                  \o stack[self]]
+                             /\ w' = [w EXCEPT ![self] = IncSeq(tv[self])[ti[self]]]
+                          /\ newt' = [newt EXCEPT ![self] = 0]
+                          /\ st' = [st EXCEPT ![self] = 0]
+                          /\ pc' = [pc EXCEPT ![self] = "DfLdIn"]
+                     ELSE /\ pc' = [pc EXCEPT ![self] = "TPub"]
+                          /\ UNCHANGED << stack, w, newt, st >>
+               /\ UNCHANGED << loaded, loading, tstate, targ, tkind, tloaded, 
+                               tloading, nthr, ndoc, err, results, cachew, 
+                               cache, reload, epoch, ver, ret, u, jt, v, i, 
+                               doc, tu, tjt, tv, ti, tdoc, tw, tnewt, tst, k >>
+
+TIncLoad(self) == /\ pc[self] = "TIncLoad"
+                  /\ /\ stack' = [stack EXCEPT ![self] = << [ procedure |->  "Load",
+                                                              pc        |->  "TIncNext",
+                                                              jt        |->  jt[self],
+                                                              u         |->  u[self] ] >>
+                                                          \o stack[self]]
+                     /\ u' = [u EXCEPT ![self] = IncSeq(tv[self])[ti[self]]]
+                  /\ jt' = [jt EXCEPT ![self] = 0]
+                  /\ pc' = [pc EXCEPT ![self] = "LdIn"]
+                  /\ UNCHANGED << loaded, loading, tstate, targ, tkind, 
+                                  tloaded, tloading, nthr, ndoc, err, results, 
+                                  cachew, cache, reload, epoch, ver, ret, v, i, 
+                                  doc, w, newt, st, tu, tjt, tv, ti, tdoc, tw, 
+                                  tnewt, tst, k >>
+
+TIncNext(self) == /\ pc[self] = "TIncNext"
+                  /\ ti' = [ti EXCEPT ![self] = ti[self] + 1]
+                  /\ pc' = [pc EXCEPT ![self] = "TLoop"]
+                  /\ UNCHANGED << loaded, loading, tstate, targ, tkind, 
+                                  tloaded, tloading, nthr, ndoc, err, results, 
+                                  cachew, cache, reload, epoch, ver, ret, 
+                                  stack, u, jt, v, i, doc, w, newt, st, tu, 
+                                  tjt, tv, tdoc, tw, tnewt, tst, k >>
+
+TPub(self) == /\ pc[self] = "TPub"
+              /\ tloaded' = [tloaded EXCEPT ![tv[self]] = tdoc[self]]
+              /\ ret' = [ret EXCEPT ![self] = tdoc[self]]
+              /\ pc' = [pc EXCEPT ![self] = Head(stack[self]).pc]
+              /\ ti' = [ti EXCEPT ![self] = Head(stack[self]).ti]
+              /\ tdoc' = [tdoc EXCEPT ![self] = Head(stack[self]).tdoc]
+              /\ tv' = [tv EXCEPT ![self] = Head(stack[self]).tv]
+              /\ stack' = [stack EXCEPT ![self] = Tail(stack[self])]
+              /\ UNCHANGED << loaded, loading, tstate, targ, tkind, tloading, 
+                              nthr, ndoc, err, results, cachew, cache, reload, 
+                              epoch, ver, u, jt, v, i, doc, w, newt, st, tu, 
+                              tjt, tw, tnewt, tst, k >>
+
+TRawLoad(self) == TRFetch(self) \/ TRParse(self) \/ TLoop(self)
+                     \/ TIncLoad(self) \/ TIncNext(self) \/ TPub(self)
+
+TDfLdIn(self) == /\ pc[self] = "TDfLdIn"
+                 /\ IF tloaded[tw[self]] # Absent
+                       THEN /\ pc' = [pc EXCEPT ![self] = Head(stack[self]).pc]
+                            /\ tnewt' = [tnewt EXCEPT ![self] = Head(stack[self]).tnewt]
+                            /\ tst' = [tst EXCEPT ![self] = Head(stack[self]).tst]
+                            /\ tw' = [tw EXCEPT ![self] = Head(stack[self]).tw]
+                            /\ stack' = [stack EXCEPT ![self] = Tail(stack[self])]
+                       ELSE /\ pc' = [pc EXCEPT ![self] = "TDfLgIn"]
+                            /\ UNCHANGED << stack, tw, tnewt, tst >>
+                 /\ UNCHANGED << loaded, loading, tstate, targ, tkind, tloaded, 
+                                 tloading, nthr, ndoc, err, results, cachew, 
+                                 cache, reload, epoch, ver, ret, u, jt, v, i, 
+                                 doc, w, newt, st, tu, tjt, tv, ti, tdoc, k >>
+
+TDfLgIn(self) == /\ pc[self] = "TDfLgIn"
+                 /\ IF tloading[tw[self]] # 0
+                       THEN /\ pc' = [pc EXCEPT ![self] = Head(stack[self]).pc]
+                            /\ tnewt' = [tnewt EXCEPT ![self] = Head(stack[self]).tnewt]
+                            /\ tst' = [tst EXCEPT ![self] = Head(stack[self]).tst]
+                            /\ tw' = [tw EXCEPT ![self] = Head(stack[self]).tw]
+                            /\ stack' = [stack EXCEPT ![self] = Tail(stack[self])]
+                            /\ UNCHANGED << tstate, targ, tkind, nthr >>
+                       ELSE /\ nthr' = nthr + 1
+                            /\ tnewt' = [tnewt EXCEPT ![self] = nthr']
+                            /\ tstate' = [tstate EXCEPT ![nthr'] = "created"]
+                            /\ targ' = [targ EXCEPT ![nthr'] = tw[self]]
+                            /\ tkind' = [tkind EXCEPT ![nthr'] = "tmpl"]
+                            /\ pc' = [pc EXCEPT ![self] = "TDfSet"]
+                            /\ UNCHANGED << stack, tw, tst >>
+                 /\ UNCHANGED << loaded, loading, tloaded, tloading, ndoc, err, 
+                                 results, cachew, cache, reload, epoch, ver, 
+                                 ret, u, jt, v, i, doc, w, newt, st, tu, tjt, 
+                                 tv, ti, tdoc, k >>
+
+TDfSet(self) == /\ pc[self] = "TDfSet"
+                /\ tloading' = [tloading EXCEPT ![tw[self]] = tnewt[self]]
+                /\ pc' = [pc EXCEPT ![self] = "TDfGet"]
+                /\ UNCHANGED << loaded, loading, tstate, targ, tkind, tloaded, 
+                                nthr, ndoc, err, results, cachew, cache, 
+                                reload, epoch, ver, ret, stack, u, jt, v, i, 
+                                doc, w, newt, st, tu, tjt, tv, ti, tdoc, tw, 
+                                tnewt, tst, k >>
+
+TDfGet(self) == /\ pc[self] = "TDfGet"
+                /\ tst' = [tst EXCEPT ![self] = tloading[tw[self]]]
+                /\ IF tst'[self] = 0
+                      THEN /\ err' = [err EXCEPT ![self] = "KeyError"]
+                           /\ pc' = [pc EXCEPT ![self] = "TDHalt"]
+                      ELSE /\ pc' = [pc EXCEPT ![self] = "TDfStart"]
+                           /\ err' = err
+                /\ UNCHANGED << loaded, loading, tstate, targ, tkind, tloaded, 
+                                tloading, nthr, ndoc, results, cachew, cache, 
+                                reload, epoch, ver, ret, stack, u, jt, v, i, 
+                                doc, w, newt, st, tu, tjt, tv, ti, tdoc, tw, 
+                                tnewt, k >>
+
+TDfStart(self) == /\ pc[self] = "TDfStart"
+                  /\ IF tstate[tst[self]] # "created"
+                        THEN /\ err' = [err EXCEPT ![self] = "RuntimeError"]
+                             /\ pc' = [pc EXCEPT ![self] = "TDHalt"]
+                             /\ UNCHANGED << tstate, stack, tw, tnewt, tst >>
+                        ELSE /\ tstate' = [tstate EXCEPT ![tst[self]] = "running"]
+                             /\ pc' = [pc EXCEPT ![self] = Head(stack[self]).pc]
+                             /\ tnewt' = [tnewt EXCEPT ![self] = Head(stack[self]).tnewt]
+                             /\ tst' = [tst EXCEPT ![self] = Head(stack[self]).tst]
+                             /\ tw' = [tw EXCEPT ![self] = Head(stack[self]).tw]
+                             /\ stack' = [stack EXCEPT ![self] = Tail(stack[self])]
+                             /\ err' = err
+                  /\ UNCHANGED << loaded, loading, targ, tkind, tloaded, 
+                                  tloading, nthr, ndoc, results, cachew, cache, 
+                                  reload, epoch, ver, ret, u, jt, v, i, doc, w, 
+                                  newt, st, tu, tjt, tv, ti, tdoc, k >>
+
+TDHalt(self) == /\ pc[self] = "TDHalt"
+                /\ IF self # Main
+                      THEN /\ tstate' = [tstate EXCEPT ![self] = "done"]
+                      ELSE /\ TRUE
+                           /\ UNCHANGED tstate
+                /\ pc' = [pc EXCEPT ![self] = "TDDead"]
+                /\ UNCHANGED << loaded, loading, targ, tkind, tloaded, 
+                                tloading, nthr, ndoc, err, results, cachew, 
+                                cache, reload, epoch, ver, ret, stack, u, jt, 
+                                v, i, doc, w, newt, st, tu, tjt, tv, ti, tdoc, 
+                                tw, tnewt, tst, k >>
+
+TDDead(self) == /\ pc[self] = "TDDead"
+                /\ FALSE
+                /\ pc' = [pc EXCEPT ![self] = "Error"]
+                /\ UNCHANGED << loaded, loading, tstate, targ, tkind, tloaded, 
+                                tloading, nthr, ndoc, err, results, cachew, 
+                                cache, reload, epoch, ver, ret, stack, u, jt, 
+                                v, i, doc, w, newt, st, tu, tjt, tv, ti, tdoc, 
+                                tw, tnewt, tst, k >>
+
+TDeferred(self) == TDfLdIn(self) \/ TDfLgIn(self) \/ TDfSet(self)
+                      \/ TDfGet(self) \/ TDfStart(self) \/ TDHalt(self)
+                      \/ TDDead(self)
+
 MBegin(self) == /\ pc[self] = "MBegin"
                 /\ TRUE
                 /\ pc' = [pc EXCEPT ![self] = "MLoop"]
-                /\ UNCHANGED << loaded, loading, tstate, targ, nthr, ndoc, err, 
-                                results, cachew, cache, reload, epoch, ver, 
-                                ret, stack, u, jt, v, i, doc, w, newt, st, k >>
+                /\ UNCHANGED << loaded, loading, tstate, targ, tkind, tloaded, 
+                                tloading, nthr, ndoc, err, results, cachew, 
+                                cache, reload, epoch, ver, ret, stack, u, jt, 
+                                v, i, doc, w, newt, st, tu, tjt, tv, ti, tdoc, 
+                                tw, tnewt, tst, k >>
 
 MLoop(self) == /\ pc[self] = "MLoop"
                /\ IF k[self] <= Len(Prog)
@@ -490,50 +954,91 @@ MLoop(self) == /\ pc[self] = "MLoop"
                                      /\ jt' = [jt EXCEPT ![self] = 0]
                                      /\ pc' = [pc EXCEPT ![self] = "LdIn"]
                                      /\ UNCHANGED << reload, epoch, w, newt, 
-                                                     st >>
+                                                     st, tu, tjt, tw, tnewt, 
+                                                     tst >>
                                 ELSE /\ IF Prog[k[self]][1] = "refresh"
                                            THEN /\ reload' = TRUE
                                                 /\ epoch' = epoch + 1
                                                 /\ pc' = [pc EXCEPT ![self] = "RfClear"]
                                                 /\ UNCHANGED << stack, w, newt, 
-                                                                st >>
-                                           ELSE /\ IF Prog[k[self]][1] = "touch"
-                                                      THEN /\ pc' = [pc EXCEPT ![self] = "MTouch"]
-                                                           /\ UNCHANGED << stack, 
-                                                                           w, 
-                                                                           newt, 
-                                                                           st >>
-                                                      ELSE /\ /\ stack' = [stack EXCEPT ![self] = << [ procedure |->  "Deferred",
-                                                                                                       pc        |->  "MNext",
-                                                                                                       newt      |->  newt[self],
-                                                                                                       st        |->  st[self],
-                                                                                                       w         |->  w[self] ] >>
+                                                                st, tu, tjt, 
+                                                                tw, tnewt, tst >>
+                                           ELSE /\ IF Prog[k[self]][1] = "tload"
+                                                      THEN /\ /\ stack' = [stack EXCEPT ![self] = << [ procedure |->  "TLoad",
+                                                                                                       pc        |->  "TMRes",
+                                                                                                       tjt       |->  tjt[self],
+                                                                                                       tu        |->  tu[self] ] >>
                                                                                                    \o stack[self]]
-                                                              /\ w' = [w EXCEPT ![self] = Prog[k[self]][2]]
-                                                           /\ newt' = [newt EXCEPT ![self] = 0]
-                                                           /\ st' = [st EXCEPT ![self] = 0]
-                                                           /\ pc' = [pc EXCEPT ![self] = "DfLdIn"]
+                                                              /\ tu' = [tu EXCEPT ![self] = Prog[k[self]][2]]
+                                                           /\ tjt' = [tjt EXCEPT ![self] = 0]
+                                                           /\ pc' = [pc EXCEPT ![self] = "TLdIn"]
+                                                           /\ UNCHANGED << w, 
+                                                                           newt, 
+                                                                           st, 
+                                                                           tw, 
+                                                                           tnewt, 
+                                                                           tst >>
+                                                      ELSE /\ IF Prog[k[self]][1] = "tdeferred"
+                                                                 THEN /\ /\ stack' = [stack EXCEPT ![self] = << [ procedure |->  "TDeferred",
+                                                                                                                  pc        |->  "MNext",
+                                                                                                                  tnewt     |->  tnewt[self],
+                                                                                                                  tst       |->  tst[self],
+                                                                                                                  tw        |->  tw[self] ] >>
+                                                                                                              \o stack[self]]
+                                                                         /\ tw' = [tw EXCEPT ![self] = Prog[k[self]][2]]
+                                                                      /\ tnewt' = [tnewt EXCEPT ![self] = 0]
+                                                                      /\ tst' = [tst EXCEPT ![self] = 0]
+                                                                      /\ pc' = [pc EXCEPT ![self] = "TDfLdIn"]
+                                                                      /\ UNCHANGED << w, 
+                                                                                      newt, 
+                                                                                      st >>
+                                                                 ELSE /\ IF Prog[k[self]][1] = "touch"
+                                                                            THEN /\ pc' = [pc EXCEPT ![self] = "MTouch"]
+                                                                                 /\ UNCHANGED << stack, 
+                                                                                                 w, 
+                                                                                                 newt, 
+                                                                                                 st >>
+                                                                            ELSE /\ /\ stack' = [stack EXCEPT ![self] = << [ procedure |->  "Deferred",
+                                                                                                                             pc        |->  "MNext",
+                                                                                                                             newt      |->  newt[self],
+                                                                                                                             st        |->  st[self],
+                                                                                                                             w         |->  w[self] ] >>
+                                                                                                                         \o stack[self]]
+                                                                                    /\ w' = [w EXCEPT ![self] = Prog[k[self]][2]]
+                                                                                 /\ newt' = [newt EXCEPT ![self] = 0]
+                                                                                 /\ st' = [st EXCEPT ![self] = 0]
+                                                                                 /\ pc' = [pc EXCEPT ![self] = "DfLdIn"]
+                                                                      /\ UNCHANGED << tw, 
+                                                                                      tnewt, 
+                                                                                      tst >>
+                                                           /\ UNCHANGED << tu, 
+                                                                           tjt >>
                                                 /\ UNCHANGED << reload, epoch >>
                                      /\ UNCHANGED << u, jt >>
                      ELSE /\ pc' = [pc EXCEPT ![self] = "Done"]
                           /\ UNCHANGED << reload, epoch, stack, u, jt, w, newt, 
-                                          st >>
-               /\ UNCHANGED << loaded, loading, tstate, targ, nthr, ndoc, err, 
-                               results, cachew, cache, ver, ret, v, i, doc, k >>
+                                          st, tu, tjt, tw, tnewt, tst >>
+               /\ UNCHANGED << loaded, loading, tstate, targ, tkind, tloaded, 
+                               tloading, nthr, ndoc, err, results, cachew, 
+                               cache, ver, ret, v, i, doc, tv, ti, tdoc, k >>
 
 MNext(self) == /\ pc[self] = "MNext"
                /\ k' = [k EXCEPT ![self] = k[self] + 1]
                /\ pc' = [pc EXCEPT ![self] = "MLoop"]
-               /\ UNCHANGED << loaded, loading, tstate, targ, nthr, ndoc, err, 
-                               results, cachew, cache, reload, epoch, ver, ret, 
-                               stack, u, jt, v, i, doc, w, newt, st >>
+               /\ UNCHANGED << loaded, loading, tstate, targ, tkind, tloaded, 
+                               tloading, nthr, ndoc, err, results, cachew, 
+                               cache, reload, epoch, ver, ret, stack, u, jt, v, 
+                               i, doc, w, newt, st, tu, tjt, tv, ti, tdoc, tw, 
+                               tnewt, tst >>
 
 MRes(self) == /\ pc[self] = "MRes"
               /\ results' = Append(results, <<Prog[k[self]][2], ret[self], epoch>>)
               /\ pc' = [pc EXCEPT ![self] = "MNext"]
-              /\ UNCHANGED << loaded, loading, tstate, targ, nthr, ndoc, err, 
-                              cachew, cache, reload, epoch, ver, ret, stack, u, 
-                              jt, v, i, doc, w, newt, st, k >>
+              /\ UNCHANGED << loaded, loading, tstate, targ, tkind, tloaded, 
+                              tloading, nthr, ndoc, err, cachew, cache, reload, 
+                              epoch, ver, ret, stack, u, jt, v, i, doc, w, 
+                              newt, st, tu, tjt, tv, ti, tdoc, tw, tnewt, tst, 
+                              k >>
 
 RfClear(self) == /\ pc[self] = "RfClear"
                  /\ loaded' = [uu \in URLS |-> Absent]
@@ -545,55 +1050,89 @@ RfClear(self) == /\ pc[self] = "RfClear"
                     /\ u' = [u EXCEPT ![self] = Prog[k[self]][2]]
                  /\ jt' = [jt EXCEPT ![self] = 0]
                  /\ pc' = [pc EXCEPT ![self] = "LdIn"]
-                 /\ UNCHANGED << loading, tstate, targ, nthr, ndoc, err, 
-                                 results, cachew, cache, reload, epoch, ver, 
-                                 ret, v, i, doc, w, newt, st, k >>
+                 /\ UNCHANGED << loading, tstate, targ, tkind, tloaded, 
+                                 tloading, nthr, ndoc, err, results, cachew, 
+                                 cache, reload, epoch, ver, ret, v, i, doc, w, 
+                                 newt, st, tu, tjt, tv, ti, tdoc, tw, tnewt, 
+                                 tst, k >>
 
 RfDone(self) == /\ pc[self] = "RfDone"
                 /\ reload' = FALSE
                 /\ pc' = [pc EXCEPT ![self] = "MNext"]
-                /\ UNCHANGED << loaded, loading, tstate, targ, nthr, ndoc, err, 
-                                results, cachew, cache, epoch, ver, ret, stack, 
-                                u, jt, v, i, doc, w, newt, st, k >>
+                /\ UNCHANGED << loaded, loading, tstate, targ, tkind, tloaded, 
+                                tloading, nthr, ndoc, err, results, cachew, 
+                                cache, epoch, ver, ret, stack, u, jt, v, i, 
+                                doc, w, newt, st, tu, tjt, tv, ti, tdoc, tw, 
+                                tnewt, tst, k >>
+
+TMRes(self) == /\ pc[self] = "TMRes"
+               /\ results' = Append(results, <<Prog[k[self]][2], ret[self], epoch>>)
+               /\ pc' = [pc EXCEPT ![self] = "MNext"]
+               /\ UNCHANGED << loaded, loading, tstate, targ, tkind, tloaded, 
+                               tloading, nthr, ndoc, err, cachew, cache, 
+                               reload, epoch, ver, ret, stack, u, jt, v, i, 
+                               doc, w, newt, st, tu, tjt, tv, ti, tdoc, tw, 
+                               tnewt, tst, k >>
 
 MTouch(self) == /\ pc[self] = "MTouch"
                 /\ ver' = [ver EXCEPT ![Prog[k[self]][2]] = ver[Prog[k[self]][2]] + 1]
                 /\ pc' = [pc EXCEPT ![self] = "MNext"]
-                /\ UNCHANGED << loaded, loading, tstate, targ, nthr, ndoc, err, 
-                                results, cachew, cache, reload, epoch, ret, 
-                                stack, u, jt, v, i, doc, w, newt, st, k >>
+                /\ UNCHANGED << loaded, loading, tstate, targ, tkind, tloaded, 
+                                tloading, nthr, ndoc, err, results, cachew, 
+                                cache, reload, epoch, ret, stack, u, jt, v, i, 
+                                doc, w, newt, st, tu, tjt, tv, ti, tdoc, tw, 
+                                tnewt, tst, k >>
 
 M(self) == MBegin(self) \/ MLoop(self) \/ MNext(self) \/ MRes(self)
-              \/ RfClear(self) \/ RfDone(self) \/ MTouch(self)
+              \/ RfClear(self) \/ RfDone(self) \/ TMRes(self)
+              \/ MTouch(self)
 
 TBegin(self) == /\ pc[self] = "TBegin"
                 /\ tstate[self] = "running"
                 /\ pc' = [pc EXCEPT ![self] = "TRun"]
-                /\ UNCHANGED << loaded, loading, tstate, targ, nthr, ndoc, err, 
-                                results, cachew, cache, reload, epoch, ver, 
-                                ret, stack, u, jt, v, i, doc, w, newt, st, k >>
+                /\ UNCHANGED << loaded, loading, tstate, targ, tkind, tloaded, 
+                                tloading, nthr, ndoc, err, results, cachew, 
+                                cache, reload, epoch, ver, ret, stack, u, jt, 
+                                v, i, doc, w, newt, st, tu, tjt, tv, ti, tdoc, 
+                                tw, tnewt, tst, k >>
 
 TRun(self) == /\ pc[self] = "TRun"
-              /\ /\ stack' = [stack EXCEPT ![self] = << [ procedure |->  "RawLoad",
-                                                          pc        |->  "TDone",
-                                                          i         |->  i[self],
-                                                          doc       |->  doc[self],
-                                                          v         |->  v[self] ] >>
-                                                      \o stack[self]]
-                 /\ v' = [v EXCEPT ![self] = targ[self]]
-              /\ i' = [i EXCEPT ![self] = 1]
-              /\ doc' = [doc EXCEPT ![self] = NoneV]
-              /\ pc' = [pc EXCEPT ![self] = "RFetch"]
-              /\ UNCHANGED << loaded, loading, tstate, targ, nthr, ndoc, err, 
-                              results, cachew, cache, reload, epoch, ver, ret, 
-                              u, jt, w, newt, st, k >>
+              /\ IF tkind[self] = "tmpl"
+                    THEN /\ /\ stack' = [stack EXCEPT ![self] = << [ procedure |->  "TRawLoad",
+                                                                     pc        |->  "TDone",
+                                                                     ti        |->  ti[self],
+                                                                     tdoc      |->  tdoc[self],
+                                                                     tv        |->  tv[self] ] >>
+                                                                 \o stack[self]]
+                            /\ tv' = [tv EXCEPT ![self] = targ[self]]
+                         /\ ti' = [ti EXCEPT ![self] = 1]
+                         /\ tdoc' = [tdoc EXCEPT ![self] = NoneV]
+                         /\ pc' = [pc EXCEPT ![self] = "TRFetch"]
+                         /\ UNCHANGED << v, i, doc >>
+                    ELSE /\ /\ stack' = [stack EXCEPT ![self] = << [ procedure |->  "RawLoad",
+                                                                     pc        |->  "TDone",
+                                                                     i         |->  i[self],
+                                                                     doc       |->  doc[self],
+                                                                     v         |->  v[self] ] >>
+                                                                 \o stack[self]]
+                            /\ v' = [v EXCEPT ![self] = targ[self]]
+                         /\ i' = [i EXCEPT ![self] = 1]
+                         /\ doc' = [doc EXCEPT ![self] = NoneV]
+                         /\ pc' = [pc EXCEPT ![self] = "RFetch"]
+                         /\ UNCHANGED << tv, ti, tdoc >>
+              /\ UNCHANGED << loaded, loading, tstate, targ, tkind, tloaded, 
+                              tloading, nthr, ndoc, err, results, cachew, 
+                              cache, reload, epoch, ver, ret, u, jt, w, newt, 
+                              st, tu, tjt, tw, tnewt, tst, k >>
 
 TDone(self) == /\ pc[self] = "TDone"
                /\ tstate' = [tstate EXCEPT ![self] = "done"]
                /\ pc' = [pc EXCEPT ![self] = "Done"]
-               /\ UNCHANGED << loaded, loading, targ, nthr, ndoc, err, results, 
-                               cachew, cache, reload, epoch, ver, ret, stack, 
-                               u, jt, v, i, doc, w, newt, st, k >>
+               /\ UNCHANGED << loaded, loading, targ, tkind, tloaded, tloading, 
+                               nthr, ndoc, err, results, cachew, cache, reload, 
+                               epoch, ver, ret, stack, u, jt, v, i, doc, w, 
+                               newt, st, tu, tjt, tv, ti, tdoc, tw, tnewt, tst, 
+                               k >>
 
 T(self) == TBegin(self) \/ TRun(self) \/ TDone(self)
 
@@ -602,7 +1141,8 @@ Terminating == /\ \A self \in ProcSet: pc[self] = "Done"
                /\ UNCHANGED vars
 
 Next == (\E self \in ProcSet:  \/ Load(self) \/ RawLoad(self)
-                               \/ Deferred(self))
+                               \/ Deferred(self) \/ TLoad(self)
+                               \/ TRawLoad(self) \/ TDeferred(self))
            \/ (\E self \in {Main}: M(self))
            \/ (\E self \in Thr: T(self))
            \/ Terminating
